@@ -36,7 +36,11 @@ Definition dual_targets_ok (c : cls) : bool :=
 Definition entropy_row_ok (row : string * string * list string) : bool :=
   let '(_, fn, srcs) := row in
   subset srcs ["py_random"; "seeded_state"; "identity"] ||
-  (String.eqb fn "SerializableMeta.__new__" && subset srcs ["process_state"]).
+  (String.eqb fn "SerializableMeta.__new__" && subset srcs ["process_state"]) ||
+  (* "instance_state": a method other than __init__ writes an attribute of self.  Only the configuration methods of
+     the framework may (they are called while a pipeline is BUILT, not while it runs) *)
+  (mem fn ["BasicTransform.set_deterministic"; "BasicTransform.add_targets"; "Compose._disable_check_args"] &&
+   subset srcs ["instance_state"]).
 (* id() is only used as the replay key (get_dict_with_id / __call__): never on a result path *)
 Definition identity_row_ok (row : string * string * list string) : bool :=
   let '(_, fn, srcs) := row in
